@@ -16,6 +16,7 @@ FAIL = {
     'C10': ('header', 'rows', 'truevars', 'no-result', 'accept'),
     'C11': ('header', 'rows', 'order', 'roundtrip', 'accept'),
     'C12': ('panic',),
+    'C19': ('member', 'panic'),
 }
 
 BDD_RULE = {
@@ -71,6 +72,8 @@ PROPS = {
     'C10': dict(suites=[cli(['grid', 'order', 'random'])]),
     'C11': dict(suites=[cli(['order', 'random'])]),
     'C12': dict(suites=[cli(['robustlib', 'robustbin', 'grid'])]),
+    'C19': dict(suites=[dict(suite='set', parts=[], profile='release', exhaustive=True,
+                             rule='complete BFS over all 256 reachable pairs of reference states of two 2-bit sets sharing an environment x all 32 next operations (insert, contains per element; union, intersect, complement for all four operand pairs incl. the same set twice; empty; universe), each followed by all 8 membership queries twice; plus seeded random histories of <=25 operations over 1..5 bits ending in a full membership sweep; answers and both final diagrams are compared')]),
     'C03': dict(suites=[bdd(['conn'])]),
     'C04': dict(suites=[bdd(['quant'])]),
     'C05': dict(suites=[bdd(['count']), text(['evalc'])]),
@@ -148,3 +151,8 @@ _t('C11', 'Theorem C11_meaning: evaluating a formula renamed by any id map with 
 _t('C12', 'Theorems (logical core): on the answer of a parsed formula the table printer\'s column lookup never fails (C12_table, from C09_support and the partition theorem), and fixed-point-free formulas always evaluate (C12_eval). '
           'The tokenizer/parser/evaluator model returns Error (never a panic value) on every input, and the correspondence shows the implementation returns Err exactly there. Partial by nature: stack exhaustion, allocation failure, clap and I/O are run-time behaviour. '
           'Correspondence: 40k in-process arbitrary byte strings per quick run through tokenize/new/eval, both DOT renderers, retain, model, to_free_index under catch_unwind; 1000 runs of the binary on arbitrary bytes as formula and ordering file with random options (exit status 0/1/2, no panic message); the option grid.', NOTE_CLI)
+
+_t('C19', 'Theorems: every operation of the (repaired) BDDSet state machine on two sets sharing an environment commutes with the abstraction to membership predicates and preserves the invariant "reduced, ordered, support below bits" (per step), so for every operation list with elements below 2^bits all query answers equal those of reference sets that underwent the same operations (C19_histories, from C19_initial), '
+          'and a query leaves the state unchanged (C19_query_pure). The same set may be both operands (the model is pure; the RefCell borrow discipline is the run-time remainder). '
+          'Correspondence: complete BFS over all 256 reachable reference state pairs for 2 bits x all 32 next operations incl. self-aliasing operands, all memberships queried twice afterwards, final diagrams compared structurally; random histories up to 5 bits.',
+   'Trusted: Coq kernel; extraction + ocamlopt; glue. RefCell aliasing (a run-time panic) cannot be exhibited by the pure model; it is covered by the self-aliasing transitions of the BFS. categorize (bit is 0) is modelled as negb (testbit e c).')
